@@ -14,7 +14,9 @@ import ast
 
 from ..astutil import calls_in, call_name, where
 from ..facts import instance_fields
-from ..model import AnalysisError, unparse, walk_no_nested
+from .. import analysis
+from ..model import AnalysisError, FuncInfo, unparse, walk_no_nested
+from ..raises import Raises
 from . import common_tables as ct
 from .rules_card import format_cardinality_rule, cardinality_validation_rule, cardinality_roundtrip
 
@@ -136,6 +138,9 @@ def run(prog, rep):
         rep.check(f.qualname in allowed_readers, "ENF-1", "%s reads %s" % (f.short, node.attr), "getter or validation rule",
                   "%s reads the cardinality %s: editing operations must not depend on it" % (f.short, unparse(node)), where(f, node),
                   witness="an append/remove is refused or altered because a cardinality is set")
+    an = analysis.get(prog)
+    S = an.s
+    R = Raises(an)
     for cname, fields in sorted(FIELDS.items()):
         cls = prog.cls(cname)
         for field, (prop, helper, rulefn, kind) in sorted(fields.items()):
@@ -144,26 +149,54 @@ def run(prog, rep):
             if h is None:
                 raise AnalysisError("%s.%s vanished" % (cname, helper))
             rep.saw_function(h)
-            raises = [n for n in walk_no_nested(h.node) if isinstance(n, ast.Raise)]
-            rep.check(not raises, "ENF-1", "%s.%s has no raise" % (cname, helper), "prints only",
-                      "the re-validation helper raises: setting a cardinality / editing values can be refused", h.where)
-            calls = sorted(set(call_name(c) for c in calls_in(h.node)))
-            allowed = {"validation.Validation", "valid.register_custom_handler", "valid.run_validation", "print",
-                       "curr.rank.capitalize"}
-            rep.check(set(calls) <= allowed, "ENF-1", "%s.%s only validates and prints" % (cname, helper), str(calls),
-                      "the helper calls %s" % sorted(set(calls) - allowed), h.where)
-            reg = [c for c in calls_in(h.node) if call_name(c).endswith(".register_custom_handler")]
-            good = len(reg) == 1 and len(reg[0].args) == 2 and isinstance(reg[0].args[0], ast.Constant) \
-                and reg[0].args[0].value == kind and unparse(reg[0].args[1]) == "validation.%s" % rulefn
+            sites = R.summary(h)
+            rep.check(not sites, "ENF-1", "%s.%s cannot raise" % (cname, helper), "empty raise summary (through all resolved callees)",
+                      "the re-validation helper can raise %s: setting a cardinality / editing values can be refused" % sites[:2], h.where)
+            ws = [w for w in S.visible_writes(h) if w.origin[0] == "P0"]
+            rep.check(not ws, "ENF-1", "%s.%s only validates and prints" % (cname, helper), "no write to the object or anything reachable from it",
+                      "the helper modifies the object: %s" % ["%s.%s in %s" % (w.origin, w.field, w.func) for w in ws[:3]], h.where)
+            # which rule is registered: follow private helpers of the same class one level, substituting the actual arguments
+            regs = []
+            for c in calls_in(h.node):
+                if call_name(c).endswith(".register_custom_handler") and len(c.args) == 2:
+                    regs.append((c.args[0], c.args[1]))
+                for tg in S.targets(c, h):
+                    if isinstance(tg, FuncInfo) and tg.cls is not None and tg.name.startswith("_") and tg.qualname != h.qualname:
+                        actual = {}
+                        params = tg.params[1:] if unparse(c.func).startswith("%s." % h.params[0]) else tg.params
+                        for i, aexp in enumerate(c.args):
+                            if i < len(params):
+                                actual[params[i]] = aexp
+                        for kwd in c.keywords:
+                            if kwd.arg:
+                                actual[kwd.arg] = kwd.value
+                        for c2 in calls_in(tg.node):
+                            if call_name(c2).endswith(".register_custom_handler") and len(c2.args) == 2:
+                                regs.append(tuple(actual.get(x.id, x) if isinstance(x, ast.Name) else x for x in c2.args))
+            good = len(regs) == 1 and isinstance(regs[0][0], ast.Constant) and regs[0][0].value == kind \
+                and unparse(regs[0][1]) == "validation.%s" % rulefn
             rep.check(good, "ENF-1", "%s.%s registers %s for '%s'" % (cname, helper, rulefn, kind), "ok",
-                      "the helper registers %s" % [unparse(c) for c in reg], h.where,
+                      "the helper registers %s" % [(unparse(x), unparse(y)) for x, y in regs], h.where,
                       witness="the warning printed on assignment belongs to another rule or never appears")
-            # setter: after the store only the helper is called
-            body = [s for s in setter.node.body if not (isinstance(s, ast.Expr) and isinstance(s.value, ast.Constant))]
-            rest = body[1:]
-            good = all(isinstance(s, ast.Expr) and isinstance(s.value, ast.Call) and call_name(s.value) == "self.%s" % helper
-                       for s in rest)
-            rep.check(good, "ENF-1", "%s.%s setter only re-validates after storing" % (cname, prop), "ok",
-                      "the setter does more than store and print a warning: %s" % [unparse(s)[:50] for s in rest], setter.where)
+            # setter: nothing that runs after the store can raise (a refused setting must not be half applied, an accepted one not refused)
+            g = S.cfg(setter)
+            st_nodes = [n for n in g.nodes if n.kind == "stmt" and isinstance(n.ast, ast.Assign)
+                        and isinstance(n.ast.targets[0], ast.Attribute) and n.ast.targets[0].attr == field]
+            late = []
+            for stn in st_nodes:
+                for nid in g._closure(stn, lambda x: [m for k, m in x.succ if k not in ("exc",)]):
+                    n2 = [m for m in g.nodes if m.id == nid][0]
+                    if n2.id == stn.id:
+                        continue
+                    for root in n2.expr_roots():
+                        for c in calls_in(root):
+                            tgs = S.targets(c, setter)
+                            if not tgs and call_name(c) not in ("print",):
+                                late.append("unresolved call %s" % unparse(c)[:40])
+                            for tg in tgs:
+                                if isinstance(tg, FuncInfo) and R.summary(tg):
+                                    late.append("%s can raise %s" % (tg.short, R.summary(tg)[0]))
+            rep.check(bool(st_nodes) and not late, "ENF-1", "%s.%s setter: nothing after the store can raise" % (cname, prop), "ok",
+                      "after storing the cardinality the setter can still fail: %s" % late[:3], setter.where)
     rep.extra["exhaustive"] = True
     rep.assume("ints behave like their order type: the functions only compare, type-test and render them")
